@@ -125,7 +125,7 @@ fn report(w: &World, property: &str, sum: &c17::Summary) -> (u64, u64, Vec<Value
 fn run_stream_checks(property: &str, tier: &str, seed: u64) -> i32 {
     let t0 = Instant::now();
     let w = World::new();
-    let per_parser = if tier == "thorough" { 60_000 } else { 4_000 };
+    let per_parser = if tier == "thorough" { 60_000 } else { 12_000 };
     let sum = c17::sweep(&w, seed, per_parser, workers());
     let (unlisted, known, _docs) = report(&w, property, &sum);
     let wall = t0.elapsed().as_secs_f64();
@@ -366,8 +366,8 @@ fn run_c27(tier: &str, seed: u64) -> i32 {
             }
         }
     }
-    let iters_random: usize = if thorough { 6_000_000 } else { 160_000 };
-    let iters_pct: usize = if thorough { 2_400_000 } else { 64_000 };
+    let iters_random: usize = if thorough { 6_000_000 } else { 640_000 };
+    let iters_pct: usize = if thorough { 2_400_000 } else { 256_000 };
     let batches: usize = if thorough { 16 } else { 4 };
     let findings = Findings::load();
     let mut unlisted = 0u64;
